@@ -3,6 +3,7 @@
   Property theorems only.
 -/
 import PsVerif.Props.C05
+import PsVerif.Lemmas.RegionC
 namespace PsVerif
 
 variable {σ : Type}
@@ -27,7 +28,22 @@ theorem gqr_own_class_max (o : COption) (S : ResidSys σ) (s0 : σ) (n N s : Nat
     let st := greedyRunFrom S zc (cfgOf o L s A N).mask s0 n j
     q ∈ st.p.toList.drop j ∧
       ∀ c ∈ st.p.toList.drop j, inL L c = inL L q → S.norm2 st.lin c ≤ S.norm2 st.lin q := by
-  sorry
+  have hjn : j < n := Nat.lt_of_lt_of_le hj h.hNn
+  cases o with
+  | unconstrained =>
+    exact own_class_max_unc S (cfgOf .unconstrained L s A N).masked s0 n L (fun _ _ => rfl) j hjn
+      (hnn j hj) q hq
+  | maxN =>
+    exact own_class_max_maxN S (cfgOf .maxN L s A N).masked s0 n N s L A h.hNn h.hL h.hLn h.hAp
+      h.hA h.hnn0 (fun i c => masked_maxN_eq L A s N i c h.hN) hf hnn hpos j hj q hq
+  | exactN =>
+    exact own_class_max_exactN S (cfgOf .exactN L s A N).masked s0 n N s L A h.hNn h.hL h.hLn
+      h.hAp h.hA h.hnn0 (fun i c => masked_exactN_eq L A s N i c h.hN) hf.2.1 hf.2.2 hnn hpos
+      j hj q hq
+  | predetermined =>
+    obtain ⟨h1, -, -, -, h5⟩ := pred_step S (cfgOf .predetermined L s A N).masked s0 n N s L
+      h.hNn h.hL h.hLn (fun _ _ => rfl) hf.1 hf.2.1 hf.2.2 hnn hpos j hj q hq
+    exact ⟨h1, h5⟩
 
 /-- the unconstrained ranking already satisfies the constraint of option `o` -/
 def MetBy (o : COption) (N s : Nat) (L A : List Nat) : Prop :=
@@ -43,7 +59,13 @@ the first `N` sensors equal the unconstrained (QR) ranking. -/
 theorem gqr_inactive_eq_qr (o : COption) (S : ResidSys σ) (s0 : σ) (n N s k : Nat) (L A : List Nat)
     (h : GqrSetup S s0 n N L A) (hmet : MetBy o N s L A) (hk : N ≤ k) :
     (greedyRunFrom S zc (cfgOf o L s A N).mask s0 n k).p.toList.take N = A.take N := by
-  sorry
+  apply inactive_eq_unc S (cfgOf o L s A N).masked s0 n N k A h.hNn h.hA h.hnn0 hk
+  intro j hj q hq
+  cases o with
+  | unconstrained => rfl
+  | maxN => exact masked_inactive_maxN L A s N j q h.hN hmet
+  | exactN => exact masked_inactive_exactN L A s N j q h.hN hmet
+  | predetermined => exact masked_inactive_pred L A s N j q hmet.1 hj hq hmet.2.1 hmet.2.2
 
 /-- cost vector that makes every region sensor prohibitive -/
 def prohibitiveCosts (L : List Nat) (C : Rat) : Nat → Rat := fun c => if inL L c then C else 0
@@ -59,6 +81,23 @@ theorem gqr_s0_eq_ccqr_prohibitive (o : COption) (ho : o ≠ .unconstrained) (S 
     (hC : ∀ j < N, ∀ c, S.norm2 (greedyRunFrom S zc (cfgOf o L 0 A N).mask s0 n j).lin c < C * C) :
     (greedyRunFrom S zc (cfgOf o L 0 A N).mask s0 n k).p.toList.take N =
       (greedyRunFrom S (prohibitiveCosts L C) noMask s0 n k).p.toList.take N := by
-  sorry
+  rw [greedyRunFrom_take _ _ _ _ _ _ _ hk, greedyRunFrom_take _ _ noMask _ _ _ _ hk]
+  have hrun := prohibitive_run_eq S (cfgOf o L 0 A N).masked s0 n N L C h.hNn hnn hC0 hC
+  have key : greedyRunFrom S (prohibitiveCosts L C) noMask s0 n N =
+      greedyRunFrom S zc (cfgOf o L 0 A N).mask s0 n N := by
+    apply hrun _ N (Nat.le_refl _)
+    intro j hj q hq
+    cases o with
+    | unconstrained => exact absurd rfl ho
+    | maxN =>
+      exact s0_step_maxN S (cfgOf .maxN L 0 A N).masked s0 n N L A h.hNn h.hL h.hLn h.hAp h.hA
+        h.hnn0 (fun i c => masked_maxN_eq L A 0 N i c h.hN) hout hnn hpos j hj q hq
+    | exactN =>
+      exact s0_step_exactN S (cfgOf .exactN L 0 A N).masked s0 n N L A h.hNn h.hL h.hLn h.hAp
+        h.hA h.hnn0 (fun i c => masked_exactN_eq L A 0 N i c h.hN) hout hnn hpos j hj q hq
+    | predetermined =>
+      exact s0_step_pred S (cfgOf .predetermined L 0 A N).masked s0 n N L h.hNn h.hL h.hLn
+        (fun _ _ => rfl) hout hnn hpos j hj q hq
+  rw [key]
 
 end PsVerif
